@@ -104,6 +104,10 @@ def _verify_c(job):
                 from vf import cct
                 r = cct.run(ex, n_inputs=ncct, seed=int(os.environ.get("VERIF_SEED", "0")))
                 out["cct"] = {k_: v_ for k_, v_ in r.items() if k_ != "violations"}
+                if out["sat_pre"] == "unknown" and r.get("evaluations", 0) > 0:
+                    # vacuity guard: the solver timed out on the quantified precondition, but concrete inputs
+                    # satisfying every requires clause were built and run
+                    out["sat_pre"] = "sat (witnessed by %d concrete inputs)" % r["evaluations"]
                 if r["violations"]:
                     v = r["violations"][0]
                     out["obligations"].append({
@@ -111,6 +115,13 @@ def _verify_c(job):
                         "backend": "concrete-contract-test", "time_s": 0.0,
                         "output": "proved contract false on the real function for a small input: generator unsound or harness wrong",
                         "replay": v, "goal": v.get("reason")})
+            except Exception as e2:
+                out["cct_error"] = "%s" % e2
+        if out["sat_pre"] == "unknown":
+            try:
+                from vf import cct
+                if cct.precondition_witness(ex, seed=int(os.environ.get("VERIF_SEED", "0"))):
+                    out["sat_pre"] = "sat (witnessed by a concrete heap on which every requires clause is proved)"
             except Exception as e2:
                 out["cct_error"] = "%s" % e2
         for nm in out["trivial"]:
